@@ -18,7 +18,7 @@ EXPLANATION = (
     "linearizability of the deque; moodycamel's ConcurrentQueue (third party) is not analysed.")
 ASSUMPTIONS = ["std::atomic<range>::compare_exchange_weak is atomic on the 64-bit range word", "tagged_ptr_pair::cas is a 128-bit compare-exchange"]
 THOROUGH_CONFIGS = [["-UNDEBUG", "-DPIKA_DEBUG"]]
-FLOORS = {"C17.R1": 6, "C17.R2": 2, "C17.R3": 3, "C17.R4": 12, "C17.R5": 9, "C17.R6": 1, "C17.R7": 2}
+FLOORS = {"C17.R8": 4, "C17.R1": 6, "C17.R2": 2, "C17.R3": 3, "C17.R4": 12, "C17.R5": 9, "C17.R6": 1, "C17.R7": 2}
 
 CIQ = "pika::concurrency::detail::contiguous_index_queue"
 _cache = {}
@@ -241,6 +241,24 @@ def run(rep, tier):
                                 "still be unstabilised (the status is not known to be 'stable' at the CAS): it reads a neighbour link that has not "
                                 "been written yet - elements are lost / duplicated, pops fail on a non-empty deque" % short)
             if short.startswith("push"):
+                # the status written with the new end node names the end that is unfinished: other threads that meet the anchor before
+                # the pusher's own stabilisation dispatch on it (stabilize(): rpush -> stabilize_right, otherwise stabilize_left)
+                side = "lpush" if short == "push_left" else "rpush"
+                sts = []
+                for _, _, e in fn.all_events():
+                    if e.get("k") == "ctor" and str(e.get("rec", "")).endswith("anchor_pair") or (e.get("k") == "ctor" and "tagged_ptr_pair" in str(e.get("rec", ""))):
+                        a_ = e.get("args") or []
+                        if len(a_) == 4:
+                            sts.append((e, T(strip(a_[2])).rsplit("::", 1)[-1]))
+                unst = [(e, v) for e, v in sts if v in ("lpush", "rpush")]      # a status copied from the observed anchor (empty -> one node) is not a new status
+                if not unst:
+                    raise AnalysisBroken("%s: no anchor with an unstable status is constructed" % fn.qname)
+                for e, v in unst:
+                    if v == side:
+                        rep.ok("C17.R4", fn, "%s marks the deque '%s' when it links a node to a non-empty deque" % (short, side))
+                    else:
+                        rep.bad("C17.R4", fn, loc_of(e), short + ":status", "%s installs an anchor with status '%s' (must be '%s'): a concurrent operation that meets this anchor stabilises "
+                                "the wrong end and declares the deque stable with the new node's inward link unset - elements are lost and handed out twice" % (short, v, side))
                 want = "stabilize_left" if short == "push_left" else "stabilize_right"
                 st = [(b, i, ev) for b, i, ev in fn.all_events() if ev.get("k") == "call" and callee_short(ev) == want]
                 if st and any(t and ".cas(" in a for a, t in (ff.before.get((st[0][0], st[0][1])) or frozenset())):
@@ -249,6 +267,82 @@ def run(rep, tier):
                     rep.bad("C17.R4", fn, fn.loc, short + ":stabilize", "%s must call %s after installing an unstable anchor" % (short, want))
     if ncas < 10:
         raise AnalysisBroken("deque: only %d cas sites found" % ncas)
+    # ---- R8: link tags keep counting when a node is recycled
+    rep.rule("C17.R8", "K8 (ABA across node reuse): deque nodes are recycled through a LIFO free list, and a thread delayed inside stabilize_left/right may still hold a "
+             "(pointer, tag) pair read from a link of a node's previous life.  The tags of a node's links therefore continue from the value found in the recycled "
+             "memory: alloc_node constructs the node with tags derived from the chunk's old links, and the pre-publication stores of push_left/push_right keep "
+             "counting (no link is ever written with a fresh tag 0) - otherwise the stale compare-exchange succeeds on a recycled node: elements are lost, "
+             "duplicated, the free list is corrupted")
+    from engine.kinds import derives_from as _dfr
+    from engine.core import subexprs as _sx8
+    n8 = 0
+    seen8 = set()
+    for fn in D.find(r"^pika::concurrency::detail::deque::alloc_node$", pattern=False):
+        if fn.parent != -1:
+            continue
+        sig = tuple(p_.get("type") for p_ in fn.params)
+        if sig in seen8:
+            continue
+        seen8.add(sig)
+        alloc = [e.get("var") for _, _, e in fn.all_events() if e.get("k") == "decl" and e.get("init") is not None and "allocate(" in T(e["init"])]
+        ctors = [e for _, _, e in fn.all_events() if e.get("k") == "ctor" and str(e.get("rec", "")).endswith("deque_node") and len(e.get("args") or []) == 5]
+        if not alloc or not ctors:
+            raise AnalysisBroken("deque::alloc_node: allocation / node construction not found")
+        ch = alloc[0]
+        n8 += 1
+        from_old = lambda t, side: ("%s->%s" % (ch, side)) in t          # the old content of that link (read before the node is constructed over it)
+        okl = _dfr(fn, ctors[0]["args"][3], lambda t: from_old(t, "left")) or from_old(T(ctors[0]["args"][3]), "left")
+        okr = _dfr(fn, ctors[0]["args"][4], lambda t: from_old(t, "right")) or from_old(T(ctors[0]["args"][4]), "right")
+        if okl and okr:
+            rep.ok("C17.R8", fn, "a recycled node continues the tags found in its old links")
+        else:
+            rep.bad("C17.R8", fn, loc_of(ctors[0]), "tags-restart:alloc_node", "deque::alloc_node constructs the (possibly recycled) node with link tags (%s, %s) that do not continue "
+                    "from the tags stored in the recycled memory: a delayed stabilize_left/right compare-exchange that still expects (old neighbour, small tag) "
+                    "succeeds on the node's next life" % (T(ctors[0]["args"][3]), T(ctors[0]["args"][4])))
+    for short, side in (("push_left", "right"), ("push_right", "left")):
+        fs = [f for f in D.find(r"^pika::concurrency::detail::deque::%s$" % short, pattern=False) if f.parent == -1]
+        if not fs:
+            raise AnalysisBroken("deque::%s not instantiated" % short)
+        fn = fs[0]
+        sts = [(b, i, e) for b, i, e in fn.all_events() if e.get("k") == "call" and callee_short(e) == "store" and re.search(r"->%s$" % side, P(e.get("recv") or {}))]
+        if not sts:
+            raise AnalysisBroken("deque::%s: pre-publication store to the new node's %s link not found" % (short, side))
+        for b, i, e in sts:
+            n8 += 1
+            cons = [x for x in _sx8(e["args"][0], lambda y: isinstance(y, dict) and y.get("k") in ("construct", "ctor", "call"))]
+            a0 = strip(e["args"][0])
+            targs = a0.get("args") if isinstance(a0, dict) and a0.get("k") == "construct" else None
+            link = P(e["recv"])
+            keeps = targs is not None and len(targs) >= 2 and (link in T(targs[1]) or _dfr(fn, targs[1], lambda t, link=link: link in t and "get_tag" in t))
+            if keeps:
+                rep.ok("C17.R8", fn, "%s: the new node's %s link is written with a tag continued from its old value" % (short, side))
+            else:
+                rep.bad("C17.R8", fn, loc_of(e), "tags-restart:" + short, "%s writes the new node's %s link as %s - with a fresh tag instead of one continued from the link's old value: "
+                        "see alloc_node (stale stabilisation CAS succeeds after the node was recycled)" % (short, side, T(e["args"][0])))
+    if n8 < 4:
+        raise AnalysisBroken("C17.R8: only %d sites examined" % n8)
+
+    # stabilize(): dispatch on the recorded status
+    stz = [f for f in D.find(r"^pika::concurrency::detail::deque::stabilize$", pattern=False) if f.parent == -1]
+    if not stz:
+        raise AnalysisBroken("deque::stabilize not instantiated")
+    fz = stz[0]
+    ffz = FactFlow(fz)
+    okz = 0
+    for b, i, e in fz.all_events():
+        if e.get("k") == "call" and callee_short(e) in ("stabilize_left", "stabilize_right"):
+            fb = ffz.before.get((b, i)) or frozenset()
+            r_ = [t for a, t in fb if re.search(r"get_left_tag\(\) == (pika::concurrency::detail::)?rpush$|^(pika::concurrency::detail::)?rpush == .*get_left_tag\(\)$", a)]
+            l_ = [t for a, t in fb if re.search(r"get_left_tag\(\) == (pika::concurrency::detail::)?lpush$|^(pika::concurrency::detail::)?lpush == .*get_left_tag\(\)$", a)]
+            right = callee_short(e) == "stabilize_right"
+            good = (right and (True in r_ or False in l_)) or ((not right) and (False in r_ or True in l_))
+            if good:
+                okz += 1
+                rep.ok("C17.R4", fz, "stabilize dispatches to %s for status %s" % (callee_short(e), "rpush" if right else "lpush"))
+            else:
+                rep.bad("C17.R4", fz, loc_of(e), "stabilize-dispatch", "deque::stabilize calls %s on a path where the status is not known to be %s" % (callee_short(e), "rpush" if right else "lpush"))
+    if okz < 2 and not any(v.rule == "C17.R4" and "stabilize-dispatch" in v.key for v in rep.violations):
+        raise AnalysisBroken("deque::stabilize: dispatch not recognised")
 
     # ---- R5
     table = {"lockfree_lifo_backend": ("lifo", False), "lockfree_abp_fifo_backend": ("fifo", True), "lockfree_abp_lifo_backend": ("lifo", True)}
